@@ -42,6 +42,11 @@ def plan(tier, seed):
                       "force": force, "vf": ["lcm", "ref", "random"][i % 3],
                       "agents": int([2, 3, 16, 4, 5, 16, 7, 16][i % 8]) if tier == "quick" else int([2, 3, 64, 5, 128, 7, 256, 11][i % 8]),
                       "env": {"VERIF_X64": "1"}})
+    # single precision (x64 disabled is JAX's default for users who do not opt in)
+    for i in range(8 if tier == "quick" else 100):
+        cases.append({"index": 5 * i + 1, "seed": [seed, 23, i], "cfg": "quick", "cfg_over": {"max_T": 3},
+                      "force": {"poison": False, "mixed_discrete": i % 2 == 0, "filters": i % 2 == 0, "two_cont_choices": i % 3 == 0},
+                      "vf": ["lcm", "ref", "random"][i % 3], "agents": 12, "env": {"VERIF_X64": "0"}})
     # the same decision problems in other units (utility and value arrays multiplied by U)
     for i in range(12 if tier == "quick" else 120):
         cases.append({"index": 3 * i + (i % 3), "seed": [seed, 22, i], "cfg": "quick" if tier == "quick" else "thorough",
